@@ -132,4 +132,75 @@ mod h {
         kani::cover!(r.is_ok(), "accept");
         kani::cover!(r.is_err(), "reject");
     }
+
+    // ---------------- C12.k: the daily deleverage window (update_withdrawn_equity) == an independent reference of the rolling window
+    #[kani::proof]
+    #[kani::stub(solana_msg::sol_log, stub_sol_log)]
+    #[kani::stub(alloc::fmt::format, stub_format)]
+    #[kani::stub(<anchor_lang::error::Error as core::convert::From<marginfi::errors::MarginfiError>>::from, stub_err_from)]
+    #[kani::stub(marginfi::errors::MarginfiError::name, stub_name)]
+    #[kani::stub(<marginfi::errors::MarginfiError as core::fmt::Display>::fmt, stub_disp)]
+    fn withdraw_window() {
+        use marginfi::state::marginfi_group::MarginfiGroupImpl;
+        use marginfi_type_crate::types::MarginfiGroup;
+        let mut g = MarginfiGroup::zeroed();
+        let lim: u32 = kani::any(); let wt: u32 = kani::any(); let lr: i64 = kani::any(); let now: i64 = kani::any();
+        g.deleverage_withdraw_window_cache.daily_limit = lim;
+        g.deleverage_withdraw_window_cache.withdrawn_today = wt;
+        g.deleverage_withdraw_window_cache.last_daily_reset_timestamp = lr;
+        let whole: u32 = kani::any(); let frac: u64 = kani::any(); kani::assume(frac < (1u64 << 48));
+        let x = fixed::types::I80F48::from_bits(((whole as i128) << 48) | frac as i128);
+        let r = g.update_withdrawn_equity(x, now);
+        let reset = now.saturating_sub(lr) >= 86_400;
+        let base = if reset { 0u32 } else { wt };
+        let exp_wt = base.saturating_add(whole);
+        let exp_ok = !(lim != 0 && exp_wt > lim);
+        assert!(r.is_ok() == exp_ok);
+        if r.is_ok() {
+            assert!(g.deleverage_withdraw_window_cache.withdrawn_today == exp_wt);
+            assert!(g.deleverage_withdraw_window_cache.last_daily_reset_timestamp == if reset { now } else { lr });
+        }
+        assert!(g.deleverage_withdraw_window_cache.daily_limit == lim);
+        kani::cover!(r.is_ok() && reset, "accepted after a window roll-over");
+        kani::cover!(r.is_err(), "rejected");
+    }
+
+    // ---------------- C14.k: validate_bank_state == the 4 x 4 reference table
+    #[kani::proof]
+    #[kani::stub(solana_msg::sol_log, stub_sol_log)]
+    #[kani::stub(alloc::fmt::format, stub_format)]
+    #[kani::stub(<anchor_lang::error::Error as core::convert::From<marginfi::errors::MarginfiError>>::from, stub_err_from)]
+    #[kani::stub(marginfi::errors::MarginfiError::name, stub_name)]
+    #[kani::stub(<marginfi::errors::MarginfiError as core::fmt::Display>::fmt, stub_disp)]
+    fn bank_state_table() {
+        use marginfi::utils::{validate_bank_state, InstructionKind};
+        use marginfi_type_crate::types::BankOperationalState as S;
+        let mut bank = Bank::zeroed();
+        let st: u8 = kani::any(); kani::assume(st <= 3);
+        bank.config.operational_state = match st { 0 => S::Paused, 1 => S::Operational, 2 => S::ReduceOnly, _ => S::KilledByBankruptcy };
+        let k: u8 = kani::any(); kani::assume(k <= 3);
+        let kind = match k { 0 => InstructionKind::Unrestricted, 1 => InstructionKind::FailsInReduceState, 2 => InstructionKind::FailsInPausedState, _ => InstructionKind::FailsIfPausedOrReduceState };
+        let r = validate_bank_state(&bank, kind);
+        let paused = st == 0; let reduce = st == 2; let killed = st == 3;
+        let reject = killed || (k == 1 && reduce) || (k == 2 && paused) || (k == 3 && (paused || reduce));
+        assert!(r.is_err() == reject);
+        kani::cover!(r.is_ok(), "accept"); kani::cover!(r.is_err(), "reject");
+    }
+
+    // ---------------- C08.k: is_signer_authorized / account_not_frozen_for_authority == the reference truth table, for all flag words and keys
+    #[kani::proof]
+    #[kani::unwind(34)]
+    fn signer_auth_table() {
+        use marginfi::state::marginfi_account::{account_not_frozen_for_authority, is_signer_authorized};
+        let mut acc = MarginfiAccount::zeroed();
+        acc.account_flags = kani::any();
+        let auth = any_key(); let admin = any_key(); let signer = any_key();
+        acc.authority = auth;
+        let allow: bool = kani::any();
+        let recv = acc.account_flags & 16 != 0; let frozen = acc.account_flags & 64 != 0;
+        let want = (allow && recv) || (!(allow && recv) && if frozen { admin == signer } else { auth == signer });
+        assert!(is_signer_authorized(&acc, admin, signer, allow) == want);
+        assert!(account_not_frozen_for_authority(&acc, signer) == !(frozen && auth == signer));
+        kani::cover!(want, "authorised"); kani::cover!(!want, "refused");
+    }
 }
